@@ -25,7 +25,7 @@ pub fn c13_events() {
     let mut expect_value = String::from("v1");
     let mut i = 0;
     while i < steps {
-        let ev = vsym::choice("event", 5);
+        let ev = vsym::choice("event", 6);
         vsym::tag(&["e", &i.to_string(), "=", &ev.to_string()].concat());
         if ev == 0 {
             // a (new) arbiter registers: it must be sent exactly the unresolved notices, in order
@@ -76,9 +76,10 @@ pub fn c13_events() {
                 }
             }
         } else {
-            // the arbiter resolves the oldest pending conflict in favour of the conflicting write, echoing op id and version of the notice
-            if pending.len() > 0 && arbiter.is_some() {
-                let (notice, val, opid) = pending.remove(0);
+            // the arbiter resolves the oldest (event 4) or the newest (event 5: answers out of queue order) pending conflict in favour
+            // of the conflicting write, echoing op id and version of the notice
+            if pending.len() > (if ev == 5 { 1 } else { 0 }) && arbiter.is_some() {
+                let (notice, val, opid) = if ev == 5 { vsym::cover("resolve.out-of-order", true); let l = pending.len() - 1; pending.remove(l) } else { pending.remove(0) };
                 let (_o, ver) = notice_fields(&notice);
                 let a = &mut arbiter.as_mut().unwrap().0;
                 let r = process_request(&["resolve ", &opid, " d k ", &ver, " ", &val].concat(), &n.dbs, a);
